@@ -492,6 +492,20 @@ func (g *histGen) unit() {
 				q = strings.Repeat(r.Pick(" ", "\n", "\t "), r.PickInt(1, 255, 256, 257, 1000)) + q
 			}
 			g.add(pgwire.FMsg{K: "Q", S1: q})
+			if r.Chance(1, 8) && !g.stop {
+				// the same statement under two texts of equal length that collide
+				// under the multiply-by-31 string hash (and differ in every block):
+				// each text reaches the parser as it was sent
+				var a, b string
+				for n := r.Range(1, 4); n > 0; n-- {
+					if r.Bool() {
+						a, b = a+"Aa", b+"BB"
+					} else {
+						a, b = a+"BB", b+"Aa"
+					}
+				}
+				g.add(pgwire.FMsg{K: "Q", S1: key + " " + a}, pgwire.FMsg{K: "Q", S1: key + " " + b})
+			}
 		}})
 	}
 	if g.o.copy {
